@@ -303,6 +303,18 @@ def extras():
                 res.append(("poly-leaves-bare-%s-%s" % (nm, T), t))
         if theory.thy.has_term_sig("abs"):
             res.append(("poly-leaves-abs-%s" % T, Const("abs", TFun(T, T))(um(a1))))
+        # ... and inside list / set literals, where neither cons / insert nor the final nil / empty_set is printed
+        if theory.thy.has_term_sig("cons") and theory.thy.has_term_sig("insert"):
+            lT, sT = listT(T), setT(T)
+            consT, nilT = Const("cons", TFun(T, lT, lT)), Const("nil", lT)
+            insT, empT = Const("insert", TFun(T, sT, sT)), Const("empty_set", sT)
+            res.append(("poly-leaves-list1-%s" % T, consT(a1, nilT)))
+            res.append(("poly-leaves-list2-%s" % T, consT(a1, consT(um(a2), nilT))))
+            res.append(("poly-leaves-set1-%s" % T, insT(a1, empT)))
+            res.append(("poly-leaves-set2-%s" % T, insT(um(a1), insT(a2, empT))))
+            res.append(("poly-leaves-list-of-nil-%s" % T, Const("cons", TFun(lT, listT(lT), listT(lT)))(nilT, Const("nil", listT(lT)))))
+            res.append(("poly-leaves-set-of-empty-%s" % T, Const("insert", TFun(sT, setT(sT), setT(sT)))(empT, Const("empty_set", setT(sT)))))
+            res.append(("poly-leaves-mem-set-%s" % T, Const("member", TFun(T, sT, BoolType))(a1, insT(a2, empT))))
     # if / function update / literals / intervals
     IF = Const("IF", TFun(BoolType, NatType, NatType, NatType))
     res.append(("if-nested", Eq(IF(P(x), IF(P(y), x, y), y), x)))
